@@ -47,7 +47,8 @@ type HistCase struct {
 	Tree     []Entry     `json:"tree"`
 	Steps    []Step      `json:"steps"`
 	Faults   []FaultSpec `json:"faults,omitempty"`
-	Mode     string      `json:"mode"` // admissible | wild
+	Mode     string      `json:"mode"`                // admissible | wild
+	FaultErr string      `json:"fault_err,omitempty"` // error kind of the injected faults: "" EIO (modelled), "perm", "nospc" (oracle only)
 }
 
 type FaultSpec struct {
@@ -55,6 +56,20 @@ type FaultSpec struct {
 	Method string   `json:"method"`
 	Args   []string `json:"args"`
 	Occ    int      `json:"occ"`
+}
+
+// faultError: what an injected fault returns.  "" = EIO (what the model's fault plans stand for);
+// "perm" = EPERM, "nospc" = ENOSPC: permission- and space-type failures are outside the model (the
+// code deliberately ignores permission errors of chown/chtimes), such runs are judged by the
+// oracles only and are not compared with the model.
+func faultError(kind string) error {
+	switch kind {
+	case "perm":
+		return &os.PathError{Op: "injected", Path: "fault", Err: syscall.EPERM}
+	case "nospc":
+		return &os.PathError{Op: "injected", Path: "fault", Err: syscall.ENOSPC}
+	}
+	return errInjected
 }
 
 type histEnv struct {
@@ -70,6 +85,7 @@ type histEnv struct {
 	onPrim              func(rec CallRec)
 	loc                 string                    // nested layering: the cleaned backup location
 	newBFS              func() *backupfs.BackupFS // how the instance under test is constructed (also after a reload)
+	faultErr            string                    // error kind of injected faults ("" = EIO)
 	fired               bool                      // the injected fault has fired (reset by the caller per step)
 	apiActive           int32                     // >0 while a BackupFS method call is in progress (conc stream)
 }
@@ -120,7 +136,7 @@ func (e *histEnv) hook(r CallRec) error {
 	e.seen[k] = occ + 1
 	if e.faults[k][occ] {
 		e.fired = true
-		return errInjected
+		return faultError(e.faultErr)
 	}
 	return nil
 }
@@ -130,7 +146,7 @@ func newHistEnv(c *HistCase) (*histEnv, error) {
 	if err != nil {
 		return nil, err
 	}
-	e := &histEnv{rc: rc, faults: map[string]map[int]bool{}, seen: map[string]int{}}
+	e := &histEnv{rc: rc, faults: map[string]map[int]bool{}, seen: map[string]int{}, faultErr: c.FaultErr}
 	osfs := backupfs.NewOSFS()
 	switch c.Layering {
 	case "nested":
@@ -629,17 +645,19 @@ func findingListsProp(id, prop string) bool {
 // ---- case execution -----------------------------------------------------------------------
 
 type caseOut struct {
-	b       *Batch
-	viol    []Violation
-	counts  map[string]int
-	labels  map[string]bool
-	sampled any
+	oracleOnly bool // the run is judged by the oracles only (fault kinds outside the model)
+	b          *Batch
+	viol       []Violation
+	counts     map[string]int
+	labels     map[string]bool
+	sampled    any
 }
 
 func (o *caseOut) count(k string) { o.counts[k]++ }
 
 func runHistCase(c *HistCase, prop string) (*caseOut, error) {
 	out := &caseOut{b: &Batch{}, counts: map[string]int{}, labels: map[string]bool{}}
+	out.oracleOnly = c.FaultErr != ""
 	e, err := newHistEnv(c)
 	if err != nil {
 		return nil, err
@@ -1201,9 +1219,11 @@ func init() {
 }
 
 func mergeCase(res *Result, b *Batch, out *caseOut, prop string) {
-	b.in = append(b.in, out.b.in...)
-	b.impl = append(b.impl, out.b.impl...)
-	b.tag = append(b.tag, out.b.tag...)
+	if !out.oracleOnly {
+		b.in = append(b.in, out.b.in...)
+		b.impl = append(b.impl, out.b.impl...)
+		b.tag = append(b.tag, out.b.tag...)
+	}
 	for k, v := range out.counts {
 		res.Distribution[k] += v
 	}
@@ -1866,7 +1886,11 @@ func (e *histEnv) resolveExt(arg []string, i int, initial []Entry) []string {
 			if d[k+1] == "dir" && !was[d[k]] && !strings.Contains(d[k], "zz") {
 				if fi, err := os.Lstat(e.rc.Root + e.baseSub + d[k]); err == nil && fi.IsDir() {
 					if rp, err := filepath.EvalSymlinks(e.rc.Root + e.baseSub + path.Dir(d[k])); err == nil && rp == e.rc.Root+e.baseSub+strings.TrimSuffix(path.Dir(d[k]), "/") {
-						return []string{arg[0], fmt.Sprintf("%s/zzforeign%d", d[k], i), arg[2], "newdir"}
+						name := "zzforeign"
+						if i%2 == 1 {
+							name = ".zzforeign" // a dot-file: a directory holding only such entries is not empty
+						}
+						return []string{arg[0], fmt.Sprintf("%s/%s%d", d[k], name, i), arg[2], "newdir"}
 					}
 				}
 			}
